@@ -914,3 +914,32 @@ Qed.
 
 Lemma Lang_arg_len : forall c a s, Lang c a s -> (length a <= length s)%nat.
 Proof. intros c a s H. apply Lang_to_forms in H. destruct H as (f & _ & _ & H). eapply LangF_arg_len; eauto. Qed.
+
+(* ------------------------------------------------------------------ what is not a SET changes nothing *)
+Lemma other_is_noop : forall e e' st l, run_ev e st (EvOther e' :: l) = run_ev e' st l.
+Proof. reflexivity. Qed.
+
+Definition same_env (e : env) (l : list event) : Prop :=
+  Forall (fun ev => match ev with EvOther e' => e' = e | EvCmd _ _ _ => True end) l.
+
+Lemma run_ev_same_env : forall e l st, same_env e l ->
+  run_ev e st l = (e, fst (run e st (cmds_of l)), snd (run e st (cmds_of l))).
+Proof.
+  intros e l. induction l as [|ev l IH]; intros st S; [reflexivity|].
+  inversion S as [|x y Hx Hl]; subst. destruct ev as [c a o|e'].
+  - cbn [run_ev cmds_of run]. destruct (handle e st c a o) as [st1 r]. rewrite IH by auto.
+    destruct (run e st1 (cmds_of l)) as [st2 rs]. reflexivity.
+  - subst e'. cbn [run_ev cmds_of]. apply IH; auto.
+Qed.
+
+(* whatever settings a RELOAD brings, SHOW keeps reporting every explicit SET *)
+Lemma explicit_sets_survive : forall e e' st,
+  snd (handle e st ShowShard [] 0) = snd (handle e' st ShowShard [] 0) /\
+  (st_role st <> None \/ st_parser st <> None ->
+   snd (handle e st ShowServerRole [] 0) = snd (handle e' st ShowServerRole [] 0)) /\
+  (st_preads st <> None -> snd (handle e st ShowPrimaryReads [] 0) = snd (handle e' st ShowPrimaryReads [] 0)).
+Proof.
+  intros e e' [sh r p pr]. repeat split.
+  - cbn. intros [H|H]; destruct r as [r|]; try reflexivity; destruct p; try reflexivity; congruence.
+  - cbn. intros H. destruct pr; try reflexivity; congruence.
+Qed.
